@@ -361,6 +361,22 @@ def rule_G(ctx):
                         'speed is planimetric distance over elapsed time: one-sided at both ends, centred elsewhere, NaN exactly when the elapsed time is 0')
                 found.setdefault((what, 'value'), (f, desc, dict(case, **{'feature': got if not isinstance(got, list) else [g_ if isinstance(g_, (int, float)) else repr(g_) for g_ in got],
                                                                          'expected': want, 'first index that differs': k_bad})))
+            # a smoothed speed asked with a window wider than the track is refused (a warning, no value): the plain speed asked afterwards is the plain speed
+            if via_track and what == 'speed' and kname == 'Python numbers':
+                n_cases += 1
+                try:
+                    t5 = build()
+                    t5.call(call, 10 * n + 1)
+                    t5.call(call)
+                    got5 = t5.call('getAnalyticalFeature', feat)
+                except orders.Unsupported as ex:
+                    raise shape_error('%s after a refused smoothing not interpretable: %s' % (call, ex), f.loc())
+                except orders.PROGRAM_ERRORS as ex:
+                    found.setdefault((what, 'fails'), (f, '%s does not fail' % call, dict(case, history='track.%s(%d) refused, then track.%s()' % (call, 10 * n + 1, call), exception='%s: %s' % (type(ex).__name__, str(ex)[:160]))))
+                    got5 = None
+                if got5 is not None and not (isinstance(got5, list) and len(got5) == n and all(near(g_, w_, tl) for g_, w_, tl in zip(got5, want, tol))):
+                    found.setdefault((what, 'after-refusal'), (f, 'the plain speed asked after a smoothed speed was refused (window wider than the track) is the plain speed',
+                                                               dict(case, history='track.%s(%d): refused; then track.%s()' % (call, 10 * n + 1, call), feature=got5, expected=want)))
             # the feature is deleted, the last fix is moved and the feature computed again: it is that of the geometry as it is now
             # (nothing kept from the first computation - a temporary, a cache - may survive the deletion)
             if kname == 'Python numbers' and n >= 2:
